@@ -920,6 +920,88 @@ C20(rec) ==
    THEN {W("C20", "differs_with_subscriber", FirstDiff(rec.obs, rec.obs_c), "", rec.cfg, "")} ELSE {})
 
 -----------------------------------------------------------------------------
+\* C18 fan-in is exactly-once under every thread interleaving (threaded scenarios: cfg.thr # <<>>;
+\* events carry the thread id, exactly one thread runs at a time, Nest() keeps one stack per thread)
+IsThreaded(cfg) == Len(cfg.thr) > 0
+
+C18(cfg, obs) ==
+  IF ~IsThreaded(cfg) \/ ~(RootKind(cfg) \in {"merge", "combine"}) THEN {} ELSE
+  LET nst == Nest(obs)
+      K == "K1"
+      US == UNames(cfg, obs)
+      n == NMem(cfg)
+      kH == {i \in Calls(obs) : ToC(obs, i, K) /\ obs[i].t = "H"}
+      kD == {i \in Calls(obs) : ToC(obs, i, K) /\ obs[i].t = "D"}
+      kT == {i \in Calls(obs) : ToC(obs, i, K) /\ obs[i].t = "T"}
+      kE == {i \in Calls(obs) : ToC(obs, i, K) /\ obs[i].t = "E"}
+      uD == {j \in Calls(obs) : obs[j].fr \in US /\ obs[j].to = "S" /\ obs[j].t = "D"}
+      uT == {j \in Calls(obs) : obs[j].fr \in US /\ obs[j].to = "S" /\ obs[j].t = "T"}
+      uE == {j \in Calls(obs) : obs[j].fr \in US /\ obs[j].to = "S" /\ obs[j].t = "E"}
+      pidOf(u) == PidOfU(obs, u)
+      memOf(u) == CHOOSE m \in 1..n : MPid(cfg, m) = pidOf(u)
+  IN
+  {W("C18", "panic", i, "", cfg, "") : i \in {i \in Idx(obs) : obs[i].k = "panic"}}
+  \cup
+  (IF Cardinality(kH) # 1 THEN {W("C18", "greets", Len(obs), K, cfg, "")} ELSE {})
+  \cup
+  (IF RootKind(cfg) = "merge"
+   THEN \* every datum exactly once, unchanged, inside the member's own delivery
+        UNION {
+          LET direct == {b \in kD : nst.par[b] = j} IN
+          (IF direct = {} /\ ~EndedBefore(obs, K, j) /\ nst.ret[j] <= Len(obs) /\ ~Panicked(obs)
+           THEN {W("C18", "data_lost", j, K, cfg, "")} ELSE {})
+          \cup (IF Cardinality(direct) > 1 THEN {W("C18", "data_dup", j, K, cfg, "")} ELSE {})
+          \cup {W("C18", "data_changed", b, K, cfg, "") : b \in {b \in direct : obs[b].v # obs[j].v}}
+          : j \in uD}
+        \cup {W("C18", "data_foreign", b, K, cfg, "") : b \in {b \in kD : nst.par[b] = 0 \/ ~(nst.par[b] \in uD)}}
+   ELSE \* combine: only complete tuples made of values actually sent (by that member, earlier)
+        {W("C18", "foreign_value", b, K, cfg, "") :
+           b \in {b \in kD : Len(obs[b].v) # n
+                    \/ \E m \in 1..n : ~\E j \in uD : j < b /\ memOf(obs[j].fr) = m /\ obs[j].v = obs[b].v[m]}})
+  \cup
+  \* completion exactly once, after every data delivery has returned
+  (IF Cardinality(kT) > 1 THEN {W("C18", "end_count", Max(kT), K, cfg, "")} ELSE {})
+  \cup
+  (IF ~Panicked(obs) /\ uE = {} /\ Cardinality(uT) = n /\ (\A j \in uT : nst.ret[j] <= Len(obs)) /\ kT = {}
+   THEN {W("C18", "end_count", Len(obs), K, cfg, "missing")} ELSE {})
+  \cup
+  (IF RootKind(cfg) = "merge" /\ uE # {} /\ ~Panicked(obs) /\ (\A j \in uE : nst.ret[j] <= Len(obs))
+      /\ (Cardinality(kE) # 1 \/ kT # {})
+   THEN {W("C18", "end_count", Len(obs), K, cfg, "error")} ELSE {})
+  \cup
+  {W("C18", "end_during_data", c, K, cfg, "") :
+     c \in {c \in kT : \E a \in kD : (a < c /\ nst.ret[a] > c) \/ a > c}}
+
+-----------------------------------------------------------------------------
+\* C19 take(n) never over-delivers, even when upstream deliveries race
+C19(cfg, obs) ==
+  IF ~IsThreaded(cfg) \/ RootKind(cfg) # "take" THEN {} ELSE
+  LET K == "K1"
+      US == UNames(cfg, obs)
+      nmax == cfg.nodes[cfg.root].n
+      kD == {i \in Calls(obs) : ToC(obs, i, K) /\ obs[i].t = "D"}
+      kT == {i \in Calls(obs) : ToC(obs, i, K) /\ IsEndT(obs[i].t)}
+  IN
+  {W("C19", "panic", i, "", cfg, "") : i \in {i \in Idx(obs) : obs[i].k = "panic"}}
+  \cup
+  (IF Cardinality(kD) > nmax THEN {W("C19", "over_delivery", Max(kD), K, cfg, "")} ELSE {})
+  \cup
+  (IF Cardinality(kD) >= nmax /\ ~Panicked(obs) /\ Cardinality(kT) # 1
+   THEN {W("C19", "sink_end", Len(obs), K, cfg, "")} ELSE {})
+  \cup
+  (IF Cardinality(kT) > 1 THEN {W("C19", "sink_end", Max(kT), K, cfg, "twice")} ELSE {})
+  \cup
+  \* every upstream is terminated exactly once (never twice; once if it had not completed by itself)
+  UNION {
+    LET stops == {b \in Calls(obs) : ToC(obs, b, u) /\ IsEndT(obs[b].t)} IN
+    (IF Cardinality(stops) > 1 THEN {W("C19", "upstream_end", Max(stops), u, cfg, "twice")} ELSE {})
+    \cup
+    (IF Cardinality(kD) >= nmax /\ ~Panicked(obs) /\ stops = {}
+        /\ ~USelfEndedBefore(obs, u, Len(obs) + 1)
+     THEN {W("C19", "upstream_end", Len(obs), u, cfg, "missing")} ELSE {})
+    : u \in US}
+
+-----------------------------------------------------------------------------
 \* dispatcher used by the model configurations (MC_*) and by TraceProps
 PropsOf(p, cfg, obs) ==
   CASE p = "C01" -> C01(cfg, obs)
@@ -938,5 +1020,7 @@ PropsOf(p, cfg, obs) ==
     [] p = "C15" -> C15(cfg, obs)
     [] p = "C16" -> C16(cfg, obs)
     [] p = "C17" -> C17(cfg, obs)
+    [] p = "C18" -> C18(cfg, obs)
+    [] p = "C19" -> C19(cfg, obs)
     [] OTHER -> {}
 =============================================================================
